@@ -86,6 +86,9 @@ type Sim struct {
 	// seen by always-on oracles are counted in Foreign and do not end the run;
 	// that property's own check runs the same scenarios and reports them.
 	Target string
+	// Alias maps the property of a shared oracle to the property whose statement
+	// includes it in this scenario.
+	Alias map[string]string
 	// PanicProp is the property a library panic on the driver goroutine (solo
 	// mode) or inside an actor's call is attributed to; "" = harness trouble.
 	PanicProp string
@@ -131,6 +134,12 @@ func (s *Sim) Epoch() time.Time { return s.epoch }
 func (s *Sim) Fail(prop, oracle, class, format string, args ...any) {
 	if s.Viol != nil {
 		return
+	}
+	if a, ok := s.Alias[prop]; ok {
+		// this run uses the oracle of another property as part of its own
+		// statement (e.g. "the stream stays intact" inside C16)
+		oracle = prop + "-" + oracle
+		prop = a
 	}
 	if s.Target != "" && prop != s.Target {
 		if s.Foreign == nil {
